@@ -98,6 +98,24 @@ CHECKS.update({
    note=TB_Z + " The double computations of bitprec/fixdps are inputs of the model; the |exp+bc|>3500 path is decided by the oracle only."),
 })
 
+
+TB_B = ("Trusted: Coq 8.16.1 kernel; Coq Interval 4.x, Coquelicot, Flocq (each instance is a kernel-checked lemma proved by "
+        "the interval/integral tactics or vm_compute on Z); axioms: stdlib reals (sig_forall_dec, sig_not_dec, "
+        "functional_extensionality_dep), classic, and the Uint63/PrimInt63 primitive-integer axioms used by Interval's bignum "
+        "back-end; harness/cert.py (expression printer, reference registry: a wrong formula is a wrong oracle) and the Python "
+        "generators; untrusted numerics only schedule which statement to try.")
+CHECKS.update({
+ "C12": dict(level="exploration", engine="B", technique="per-instance Coq certificates |y - f(x)| <= 2^(4-p)|f(x)| (or the negation) proved by the Interval tactic against the real-number definition of each elementary function; exact-Z monotone-inverse certificates for roots",
+   text="Each sampled call of 39 elementary functions (real and complex, tiny/huge arguments, neighbours of k*pi/2 up to k~2^64, 1+-2^-k for log, both sides of branch cuts, precisions 10..1000) becomes a Coq lemma about real numbers with exactly the property's tolerance, proved by verified interval arithmetic; a failing sample is also certified (negation proved). The universal accuracy claim is not proved: certified oracle per instance.",
+   note=TB_B + " Inverse trig/hyperbolic references use atan/ln/sqrt identities valid on the sampled domain (listed in the evidence)."),
+ "C13": dict(level="exploration", engine="B", technique="exact cases certified by vm_compute over Z (y^n = x with mantissas to 4000 bits); special-value table enumerated exhaustively; finiteness/accuracy at neighbours of k*pi/2 by Interval",
+   text="Perfect squares/cubes/n-th powers in all precisions and rounding modes must be returned exactly (Coq checks y^n = x over Z); sinpi/cospi at (half-)integers, exp(0), log(1), sin(0), cos(0), atan(0), powm1 exact cases and the inf/nan table are enumerated; tan/cot/sec/csc at p-bit neighbours of k*pi/2 must be finite and accurate (Interval).",
+   note=TB_B + " The special-value table is written in the check from the documentation."),
+ "C43": dict(level="exploration", engine="B", technique="fp vs mp(53-bit) agreement decided exactly (both dyadic) by vm_compute lemmas; return types and out-of-domain principal values; a sample of fp values certified against the true function by Interval",
+   text="fp.* results are compared with mp at 53 bits exactly (|a-b| <= 2^-48|b| or 2^-300) for real and complex doubles including negative sqrt/log arguments, |x|>1 for asin/acos, exact half-integers for cospi/sinpi; types (float/complex) and principal-branch behaviour are checked; known deviations are keyed findings.",
+   note=TB_B),
+})
+
 NOT_APPLICABLE = {
 }
 
@@ -136,6 +154,8 @@ def main():
              "kind_free_text": "hand-written Gallina model of libmp with Coq theorems; extracted to OCaml and run against the live implementation (correspondence); constant tables regenerated from the code and re-checked by Coq each run"},
             {"name": "C", "path": "/verif/coq_effects + harness/effects_translate.py + harness/c11_dyn.py", "serves_properties": [p for p in CHECKS if CHECKS[p]["engine"] == "C"],
              "kind_free_text": "verified abstract interpreter for precision effects; command terms regenerated from the sources by a translator on every run"},
+            {"name": "B", "path": "/verif/harness/cert.py + props/engineb.py (certificates under /verif/build/cert)", "serves_properties": [p for p in CHECKS if CHECKS[p]["engine"] == "B"],
+             "kind_free_text": "per-instance real-number certificates proved by Coq Interval (interval/integral tactics) or vm_compute; failing samples certified by proving the negation"},
             {"name": "Q", "path": "/verif/coq_qcheck + harness/qcert.py qlin.py qprops.py", "serves_properties": [p for p in CHECKS if CHECKS[p]["engine"] == "Q"],
              "kind_free_text": "per-instance exact-integer certificates decided by Coq (BigZ vm_compute with a soundness transport to Z)"},
         ],
